@@ -56,6 +56,8 @@ impl Cfg {
             "T300" => Cfg::new(4 << 20, 300, 1, reuse),
             "T300b" => Cfg::new(4 << 20, 300, 64, reuse),
             "M2" => Cfg::new(M2_MEMTABLE, 300, 16, reuse),
+            // every second small write rotates the memtable
+            "R" => Cfg::new(200, 300, 16, reuse),
             "M2b" => Cfg::new(M2_MEMTABLE, 1 << 20, 4096, reuse),
             "D" => Cfg::new(4 << 20, 2 << 20, 4096, reuse),
             _ => return None,
